@@ -90,6 +90,40 @@ theorem mostRecent_run (s : St) : mostRecent.run s = .ok (mostRecentIn s.groups 
 
 theorem fuelOf_run (s : St) : fuelOf.run s = .ok (2 * s.groups.size + 8, s) := rfl
 
+theorem mostRecentIn_mem' {gs : Array Grp} : ∀ {st : List Nat} {x : Nat}, mostRecentIn gs st = some x →
+    ∃ b ∈ st, ∃ cs, gs[b]? = some (Grp.block cs) ∧ x ∈ cs := by
+  intro st
+  induction st with
+  | nil => intro x h; cases h
+  | cons b bs ih =>
+    intro x h
+    unfold mostRecentIn at h
+    cases hg : gs[b]? with
+    | none =>
+      rw [hg] at h
+      obtain ⟨b', hb', r⟩ := ih h
+      exact ⟨b', by simp [hb'], r⟩
+    | some g =>
+      rw [hg] at h
+      cases g with
+      | block cs =>
+        simp only [] at h
+        cases hl : cs.getLast? with
+        | none =>
+          rw [hl] at h
+          obtain ⟨b', hb', r⟩ := ih h
+          exact ⟨b', by simp [hb'], r⟩
+        | some c =>
+          rw [hl] at h
+          injection h with h; subst h
+          exact ⟨b, by simp, cs, hg, mem_of_getLast? hl⟩
+      | row _ _ =>
+        obtain ⟨b', hb', r⟩ := ih h
+        exact ⟨b', by simp [hb'], r⟩
+      | noop _ _ =>
+        obtain ⟨b', hb', r⟩ := ih h
+        exact ⟨b', by simp [hb'], r⟩
+
 theorem mostRecentIn_sim {s₁ s₂ : St} (h : ASim P s₁ s₂) (ok : P.Ok) (tail : List Nat) :
     ∀ st : List Nat, (∀ b ∈ st, P.DG b) → (tail = [] ∨ P.bx ∈ st) → (P.bx ∈ st → P.hb) →
       mostRecentIn s₂.groups (st.map P.γ ++ tail) = (mostRecentIn s₁.groups st).map P.γ ∧
@@ -161,12 +195,18 @@ theorem mostRecentIn_sim {s₁ s₂ : St} (h : ASim P s₁ s₂) (ok : P.Ok) (ta
           rw [hg] at e'
           injection e' with e'; injection e' with e'
           subst e'
-          rw [mapGrpAt_block_bx]
+          have e1 : ∃ l, mapGrpAt P P.bx (.block (c :: cs')) = .block l ∧ l.getLast? = ((c :: cs').getLast?).map P.γ := by
+            cases hsp : P.sp with
+            | true =>
+              refine ⟨_, mapGrpAt_block_bx P hsp _, ?_⟩
+              rw [← getLast?_map]
+              simp [List.getLast?_cons_cons]
+            | false =>
+              exact ⟨_, mapGrpAt_block_ne P (.inr hsp) _, getLast?_map _ _⟩
+          obtain ⟨l, el, egl⟩ := e1
+          rw [el]
           simp only []
-          have e1 : (P.gx :: List.map P.γ (c :: cs')).getLast? = ((c :: cs').getLast?).map P.γ := by
-            rw [← getLast?_map]
-            simp [List.getLast?_cons_cons]
-          rw [e1]
+          rw [egl]
           cases hl : (c :: cs').getLast? with
           | none => simp at hl
           | some x =>
@@ -175,7 +215,7 @@ theorem mostRecentIn_sim {s₁ s₂ : St} (h : ASim P s₁ s₂) (ok : P.Ok) (ta
             injection hj with hj
             subst hj
             exact hcl.2 x (by simp only [grefs]; exact mem_of_getLast? hl)
-        · rw [mapGrpAt_block_ne P hbb]
+        · rw [mapGrpAt_block_ne P (.inl hbb)]
           simp only [getLast?_map]
           cases hl : cs.getLast? with
           | none =>
@@ -201,7 +241,8 @@ theorem mostRecent_sim (ok : P.Ok) {s₁ s₂ : St} (h : Sim P X s₁ s₂) :
 theorem groupOfEdge_rel (ok : P.Ok) {s₁ s₂ : St} (h : Sim P X s₁ s₂) (e : Edge)
     (hF : e.from_ ≠ [] → e.from_ ∉ X.F) (hmr : e.from_ = [] → MR P s₁) :
     rwp (groupOfEdge e) (groupOfEdge e) s₁ s₂
-      (RO (fun a b => b = a.map P.γ ∧ ∀ j, a = some j → P.DG j ∧ ¬ P.T j) s₁ s₂) := by
+      (RO (fun a b => b = a.map P.γ ∧ ∀ j, a = some j → P.DG j ∧ ¬ P.T j ∧
+        ((∀ p ∈ s₁.rowIds, p.2 < s₁.groups.size) → j < s₁.groups.size)) s₁ s₂) := by
   unfold groupOfEdge
   refine rwp_ite (fun _ => ?_) fun hst => ?_
   · rw [rwp_pure]; exact ⟨⟨rfl, fun j hj => by cases hj⟩, rfl, rfl⟩
@@ -210,7 +251,9 @@ theorem groupOfEdge_rel (ok : P.Ok) {s₁ s₂ : St} (h : Sim P X s₁ s₂) (e 
     have he : e.from_ = [] := by simpa using hem
     obtain ⟨e1, e2⟩ := mostRecent_sim ok h
     refine rwp_of_run (mostRecent_run s₁) (mostRecent_run s₂) ⟨⟨e1, fun j hj => ?_⟩, rfl, rfl⟩
-    exact ⟨e2 j hj, hmr he j hj⟩
+    refine ⟨e2 j hj, hmr he j hj, fun _ => ?_⟩
+    obtain ⟨b, _, cs, hg, hc⟩ := mostRecentIn_mem' hj
+    exact (h.1.wf b _ hg).2 j (by simpa [grefs] using hc)
   · simp only [hem, Bool.false_eq_true, not_false_eq_true, if_true]
     have he : e.from_ ≠ [] := by simpa using hem
     rw [rwp_bind]
@@ -224,7 +267,7 @@ theorem groupOfEdge_rel (ok : P.Ok) {s₁ s₂ : St} (h : Sim P X s₁ s₂) (e 
       refine ⟨⟨rfl, fun j hj => ?_⟩, rfl, rfl⟩
       injection hj with hj; subst hj
       have hm := lookupIn_mem hl
-      exact ⟨h.2.riDG _ hm, fun ht => hF he (h.2.rl _ hm ht)⟩
+      exact ⟨h.2.riDG _ hm, fun ht => hF he (h.2.rl _ hm ht), fun hrv => hrv _ hm⟩
 
 /-- postcondition of a parser-level operation that leaves scope and blocks alone -/
 def SPost (P : Params) (X : SParams) (s₁ s₂ : St) : PUnit → St → PUnit → St → Prop :=
@@ -259,7 +302,7 @@ theorem addRowEdge_rel (ok : P.Ok) {s₁ s₂ : St} (h : Sim P X s₁ s₂) (d :
     simp only [Option.map_some]
     rw [rwp_bind]
     refine rwp_of_run (fuelOf_run s₁) (fuelOf_run s₂) ?_
-    exact addExit_srel ok h _ _ (hj g rfl).1 (hj g rfl).2 d e.cond
+    exact addExit_srel ok h _ _ (hj g rfl).1 (hj g rfl).2.1 d e.cond
 
 /-- all edges of a row: each source is looked up in the (unchanging) scope -/
 theorem edges_rel (ok : P.Ok) {s₁ s₂ : St} (h : Sim P X s₁ s₂) (d : Dest) (es : List Edge)
